@@ -1,0 +1,79 @@
+//! Verification hooks (feature `verif`): deterministic work counters and observation flags.
+//!
+//! Nothing in here influences formatting; the counters are thread-local so that concurrent
+//! formatting calls do not disturb each other's measurements.
+use std::cell::Cell;
+
+#[derive(Debug, Default, Clone, Copy, PartialEq, Eq)]
+pub struct Counters {
+    /// Conditional-directive passes parsed by `parse_file`.
+    pub parser_passes: u64,
+    /// Token lookups performed by the logical line parser (every parser loop iteration does at
+    /// least one).
+    pub parser_lookups: u64,
+    /// Tokens appended to a logical line by the parser.
+    pub parser_tokens: u64,
+    /// Nodes popped from the search heap of the optimising line formatter.
+    pub wrapper_nodes: u64,
+    /// Child-line solutions served, during the re-flow that follows multi-line string
+    /// re-indentation, from cache entries computed before that re-indentation.
+    pub stale_child_cache_hits: u64,
+}
+
+thread_local! {
+    static COUNTERS: Cell<Counters> = const { Cell::new(Counters {
+        parser_passes: 0,
+        parser_lookups: 0,
+        parser_tokens: 0,
+        wrapper_nodes: 0,
+        stale_child_cache_hits: 0,
+    }) };
+    static IN_REFLOW: Cell<bool> = const { Cell::new(false) };
+}
+
+pub fn reset() {
+    COUNTERS.with(|c| c.set(Counters::default()));
+    IN_REFLOW.with(|c| c.set(false));
+}
+
+pub fn snapshot() -> Counters {
+    COUNTERS.with(|c| c.get())
+}
+
+#[inline]
+pub(crate) fn bump(f: impl FnOnce(&mut Counters)) {
+    COUNTERS.with(|c| {
+        let mut v = c.get();
+        f(&mut v);
+        c.set(v);
+    });
+}
+
+pub(crate) fn set_in_reflow(value: bool) {
+    IN_REFLOW.with(|c| c.set(value));
+}
+
+pub(crate) fn in_reflow() -> bool {
+    IN_REFLOW.with(|c| c.get())
+}
+
+/// The token indices of each conditional-directive pass the parser makes over `tokens`.
+pub fn passes(tokens: &[crate::lang::RawToken]) -> Vec<Vec<usize>> {
+    crate::defaults::parser::verif_passes(tokens)
+}
+
+/// The identifier-scanning routines of the lexer, callable regardless of CPU detection.
+pub mod lexer {
+    /// The scalar routine that defines the semantics.
+    pub fn ident_end_generic(input: &str, offset: usize) -> usize {
+        crate::defaults::lexer::verif_ident_end_generic(input, offset)
+    }
+    /// The AVX2 routine, or `None` when the CPU does not support it.
+    pub fn ident_end_avx2(input: &str, offset: usize) -> Option<usize> {
+        crate::defaults::lexer::verif_ident_end_avx2(input, offset)
+    }
+    /// The routine the lexer dispatches to at run time.
+    pub fn ident_end_dispatch(input: &str, offset: usize) -> usize {
+        crate::defaults::lexer::verif_ident_end_dispatch(input, offset)
+    }
+}
